@@ -244,6 +244,8 @@ def permute_system(s, p):
         for d in range(e["order"]):
             remap[offs[i] + d] = new_offs[i] + d
     t = {"entries": new_entries, "params": list(s["params"]), "funs": copy.deepcopy(s.get("funs", []))}
+    if "time_symbol" in s:
+        t["time_symbol"] = s["time_symbol"]
     for e in t["entries"]:
         for term in e.get("rhs", []):
             for ap in term["pows"]:
